@@ -52,12 +52,23 @@ def sh(cmd, cwd=None, timeout=None, env=None, inp=None):
     e['CARGO_NET_OFFLINE'] = 'true'
     if env:
         e.update(env)
+    # own process group, so that a timeout also stops the children (make -> coqc, cargo -> rustc)
+    p = subprocess.Popen(cmd, cwd=cwd, shell=isinstance(cmd, str), env=e, stdin=subprocess.PIPE if inp is not None else None,
+                         stdout=subprocess.PIPE, stderr=subprocess.STDOUT, text=True, start_new_session=True)
     try:
-        p = subprocess.run(cmd, cwd=cwd, shell=isinstance(cmd, str), timeout=timeout,
-                           env=e, input=inp, stdout=subprocess.PIPE, stderr=subprocess.STDOUT, text=True)
-        return p.returncode, p.stdout
-    except subprocess.TimeoutExpired as ex:
-        return 124, (ex.stdout or '') if isinstance(ex.stdout, str) else 'TIMEOUT'
+        out, _ = p.communicate(inp, timeout=timeout)
+        return p.returncode, out
+    except subprocess.TimeoutExpired:
+        import signal
+        try:
+            os.killpg(p.pid, signal.SIGKILL)
+        except OSError:
+            pass
+        try:
+            out, _ = p.communicate(timeout=10)
+        except Exception:
+            out = ''
+        return 124, (out or '') + '\nTIMEOUT after %ss' % timeout
 
 
 def strip_coq_comments(s):
@@ -431,7 +442,8 @@ def main():
     strict_props = [e for e in getattr(prop, 'STRICT_PROP_FILES', []) if os.path.exists('%s/Props/%s.v' % (COQ, e))]
     strict_lost = []
     for e in strict_props:
-        rce, oute = coq_make(['Props/%s.vo' % e], timeout=3400)
+        # bounded: a changed formula can make a proof search run away; not finishing in time = obligation not re-established
+        rce, oute = coq_make(['Props/%s.vo' % e], timeout=420 if tier == 'quick' else 1800)
         if rce == 0:
             extra_props.append(e)
             extra_thms[e] = theorem_names('%s/Props/%s.v' % (COQ, e))
